@@ -6,4 +6,52 @@ McPackets == {{<<d, v>>} : d \in 1..(ND + 1), v \in {0, 1}}
              \cup {{<<d, 0>>, <<d, 1>>} : d \in 1..ND}
              \cup {{<<d, 0>>, <<e, 1>>} : d \in 1..ND, e \in 1..ND}
              \cup {{<<1, 0>>, <<ND + 1, 0>>}}
+\* ---- term configurations: TermDuration = 4, InterimDuration = 1: snapshot block at height 4, the next term signs
+\* from height 6; the stabilised prefix is heights 1..4, so the universe holds blocks of heights 5 (old term), 6, 7
+McOne == 1
+McSnap4 == 4
+McStart6 == 6
+McPL4 == 4
+McPL3 == 3                      \* prefix 1..3: the snapshot block itself is inside the universe (heights 4, 5, 6)
+McNewGrow == {2, 3, 4, 5}       \* with ND = 3: {1,2,3} -> {2,3,4,5}: 1 leaves, 4 and 5 join, threshold 2 -> 3
+McNewShrink == {3, 5}           \* with ND = 4: {1,2,3,4} -> {3,5}: 1, 2, 4 leave, 5 joins, threshold 3 -> 2
+OldOnly == DepOld \ DepNew
+NewOnly == DepNew \ DepOld
+Both == DepOld \cap DepNew
+\* packets across the boundary: every single signature of every identity and of the outsider, re-encodings, pairs that mix
+\* an old-term-only or new-term-only deputy with a deputy of the other classes, two deputies of both terms,
+\* and triples old-only + new-only + both
+McTermPackets == {{<<d, 0>>} : d \in Ident \cup {Outsider}}
+                 \cup {{<<d, 1>>} : d \in Ident}
+                 \cup {{<<d, 0>>, <<e, 1>>} : d \in OldOnly, e \in Both \cup NewOnly}
+                 \cup {{<<d, 0>>, <<e, 1>>} : d \in NewOnly, e \in Both \cup OldOnly}
+                 \cup {{<<d, 0>>, <<e, 0>>} : d \in Both, e \in Both}
+                 \cup {{<<o, 0>>, <<n, 0>>, <<d, 1>>} : o \in OldOnly, n \in NewOnly, d \in Both}
+\* the replayed term configurations: one miner per class (old-only, both, new-only) and a packet of every kind
+McPoolGrow == {1, 2, 4}
+McPoolShrink == {1, 3, 5}
+McGrowPackets == {{<<d, 0>>} : d \in 1..6} \cup {{<<1, 1>>}, {<<2, 1>>}, {<<4, 1>>}}
+                 \cup {{<<1, 0>>, <<2, 1>>}, {<<4, 0>>, <<3, 1>>}, {<<1, 0>>, <<4, 1>>}, {<<4, 0>>, <<5, 1>>}}
+                 \cup {{<<1, 0>>, <<4, 0>>, <<2, 1>>}}
+McShrinkPackets == {{<<d, 0>>} : d \in 1..6} \cup {{<<1, 1>>}, {<<3, 1>>}, {<<5, 1>>}}
+                   \cup {{<<1, 0>>, <<3, 1>>}, {<<5, 0>>, <<3, 1>>}, {<<1, 0>>, <<5, 1>>}, {<<1, 0>>, <<2, 1>>}}
+                   \cup {{<<1, 0>>, <<5, 0>>, <<3, 1>>}}
+\* the quick-tier variant of the shrinking configuration: the blocks of height 5 are mined by node 3, 11 packets
+McPoolShrinkQ == {3, 5}
+McShrinkPacketsQ == {{<<d, 0>>} : d \in 1..6} \cup {{<<3, 1>>}}
+                    \cup {{<<1, 0>>, <<3, 1>>}, {<<5, 0>>, <<3, 1>>}, {<<1, 0>>, <<2, 1>>}}
+                    \cup {{<<1, 0>>, <<5, 0>>, <<3, 1>>}}
+\* ---- the SECOND term change (TermDuration 4, InterimDuration 1): genesis {1,2,3}, the snapshot block at height 4 elects
+\* {2,3,4}, the one at height 8 elects {3,4,5,6}, which signs from height 10 (the general branch of
+\* GetSignerTermIndexByHeight, a third record in the deputy manager's term list).  Prefix 1..8, universe heights 9, 10, 11.
+\* Node 1 is a former deputy (of neither term), 2 old-term only, 3 and 4 both, 5 and 6 new-term only, 7 the outsider.
+McSnap8 == 8
+McStart10 == 10
+McPL8 == 8
+McT1 == {2, 3, 4}
+McT2 == {3, 4, 5, 6}
+McPoolU == {2, 3, 5}
+McUPackets == {{<<d, 0>>} : d \in 1..7} \cup {{<<2, 1>>}, {<<3, 1>>}, {<<5, 1>>}}
+              \cup {{<<2, 0>>, <<3, 1>>}, {<<5, 0>>, <<4, 1>>}, {<<2, 0>>, <<5, 1>>}, {<<5, 0>>, <<6, 1>>}, {<<1, 0>>, <<3, 1>>}}
+              \cup {{<<2, 0>>, <<5, 0>>, <<3, 1>>}}
 ====
